@@ -14,7 +14,7 @@ import re
 
 from common import Rule, V, finish
 from mirlib import ENTRY_POINTS, short_path, op_const
-from rulelib import is_fs_mut, strip_generics, callee_name
+from rulelib import is_fs_mut, strip_generics, callee_name, loop_exits
 from unord import Unord, is_sink_call, STDOUT_MODULE
 from shapes import Shaper, render, alternatives
 from srclib import tera_all_idents
@@ -151,6 +151,19 @@ def check(ctx):
                 r1.ok("%s: %s does not read the visited state" % (short_path(fid), c.name))
         if not n_sh:
             r1.ok("%s: worklist function — nothing but the queue is filtered by the visited state" % short_path(fid))
+        # "popped until empty": the pop-driven loop ends only when the worklist is exhausted (or an error is propagated).  Any other way out
+        # (a `break` on an already-visited item, say) leaves the items still queued unvisited — which ones depends on the hash-seeded order
+        # in which they were queued.
+        for pc in [c for c in f.calls if short_path(c.path) == "Vec::pop" and c.bb in f.reach_blocks and c.args and _base(f, c.args[0]) in wl]:
+            drv, exits = loop_exits(f, pc.bb, drivers=("pop",))
+            if drv is None:
+                continue
+            for (b_, to_, cond_, kind_) in exits:
+                r1.bad(V(r1.id, fid, "worklist-loop-left-early:%s:%s" % (kind_, cond_),
+                         "%s: the worklist loop is left by a `%s` under `%s` while items may still be queued — which items stay unvisited depends on the "
+                         "hash-seeded order in which they were queued" % (short_path(fid), kind_, cond_), f.blocks[b_]["term"].get("file", pc.file), f.blocks[b_]["term"].get("line", pc.line)))
+            if not exits:
+                r1.ok("%s: the worklist loop ends only when the worklist is empty (or on `?`)" % short_path(fid))
     # dedup removes *adjacent* duplicates only: on data that was not sorted first, what survives depends on the discovery order of the items
     # (moving an item between files changes the set of declarations)
     for fid in sorted(reach):
